@@ -13,6 +13,7 @@ Nothing in here imports or calls pcbasic.
 """
 import os
 import sys
+import errno
 import hashlib
 import contextlib
 
@@ -46,9 +47,35 @@ def _hook(event, args):
         return
     if event == 'open' or (event.startswith(_PREFIXES) and event not in _IGNORE):
         try:
-            mon._raw.append((event, tuple(args), os.getcwd()))
+            cwd = os.getcwd()
+            args = tuple(args)
         except Exception:        # never let the monitor break the code under observation
-            mon._raw.append((event, ('<unreadable>',), None))
+            mon._raw.append((event, ('<unreadable>',), None, False, False))
+            return
+        blocked = mon.fence is not None and mon._must_block(event, args, cwd)
+        mon._raw.append((event, args, cwd, blocked, _python_internal()))
+        if blocked:
+            # PEP 578: an exception raised by a hook aborts the operation before it happens.
+            # The operation is recorded (and will be reported); it just cannot do damage.
+            raise PermissionError(errno.EACCES, 'vlib.fsmon fence: %s outside %s refused'
+                                  % (event, mon.fence))
+
+
+def _python_internal():
+    """
+    True if the event is raised on behalf of Python's own machinery (the import system looking
+    for / reading a module, linecache reading a source file to format a traceback) rather than by
+    the observed code: decided from the call stack, not from the path.
+    """
+    f = sys._getframe(2)
+    n = 0
+    while f is not None and n < 60:
+        fn = f.f_code.co_filename
+        if fn.startswith('<frozen importlib') or fn.endswith(('/linecache.py', '/tokenize.py')):
+            return True
+        f = f.f_back
+        n += 1
+    return False
 
 
 def install():
@@ -91,9 +118,13 @@ def is_below(path, root):
 class Event(object):
     """One recorded host file-system operation."""
 
-    __slots__ = ('event', 'paths', 'resolved', 'write', 'process', 'detail')
+    __slots__ = ('event', 'paths', 'resolved', 'write', 'process', 'detail', 'blocked',
+                 'internal')
 
-    def __init__(self, event, paths, resolved, write, process, detail):
+    def __init__(self, event, paths, resolved, write, process, detail, blocked=False,
+                 internal=False):
+        self.blocked = blocked      # refused by the fence (never executed)
+        self.internal = internal    # raised by the import system / linecache (see _python_internal)
         self.event = event
         self.paths = paths          # as given
         self.resolved = resolved    # realpath-resolved
@@ -102,8 +133,9 @@ class Event(object):
         self.detail = detail
 
     def __repr__(self):
-        return '%s(%s)%s' % (self.event, ', '.join(repr(p) for p in self.paths),
-                             '' if self.write else ' [read]')
+        return '%s(%s)%s%s' % (self.event, ', '.join(repr(p) for p in self.paths),
+                               '' if self.write else ' [read]',
+                               ' [refused by fence]' if self.blocked else '')
 
 
 def _open_is_write(args):
@@ -133,14 +165,43 @@ class Monitor(object):
     permitted roots (the mounted drives).
     """
 
-    def __init__(self, roots, allowed_read_roots=None):
+    def __init__(self, roots, allowed_read_roots=None, fence=None):
+        """
+        roots: directories the observed code may touch (the mounted drives).
+        fence: optional directory; while armed, any operation that is not read-only and names a
+               path outside `fence` (and outside os.devnull) is *refused* with PermissionError
+               before it happens, besides being recorded.  This keeps a genuinely escaping
+               interpreter (or a seeded mutant) from damaging the host while it is being caught.
+        """
         install()
         self.roots = [os.path.realpath(r) for r in roots]
+        self.fence = os.path.realpath(fence) if fence else None
         if allowed_read_roots is None:
             allowed_read_roots = default_allowed_read_roots()
         self.allowed_read_roots = list(allowed_read_roots)
         self.allowed_exact = {os.path.realpath(os.devnull)}
         self._raw = []
+
+    def _paths_of(self, event, args):
+        cand = args[:2] if event in _TWO_PATHS else args[:1]
+        return [s for s in (_to_str(a) for a in cand) if s is not None]
+
+    def _is_write(self, event, args):
+        if event == 'open':
+            return _open_is_write(args)
+        return event not in _READ_EVENTS
+
+    def _must_block(self, event, args, cwd):
+        """Called inside the hook: True if the operation must be refused."""
+        if event in _PROCESS_EVENTS:
+            return True
+        if not self._is_write(event, args):
+            return False
+        for p in self._paths_of(event, args):
+            rp = resolve(p, cwd)
+            if not is_below(rp, self.fence) and rp not in self.allowed_exact:
+                return True
+        return False
 
     @contextlib.contextmanager
     def armed(self):
@@ -156,27 +217,23 @@ class Monitor(object):
         """Return the Events recorded since the last drain."""
         raw, self._raw = self._raw, []
         out = []
-        for event, args, cwd in raw:
-            if event in _TWO_PATHS:
-                cand = list(args[:2])
-            else:
-                cand = list(args[:1])
-            paths = [s for s in (_to_str(a) for a in cand) if s is not None]
+        for event, args, cwd, blocked, internal in raw:
+            paths = self._paths_of(event, args)
             process = event in _PROCESS_EVENTS
             if not paths and not process:
                 continue                    # file-descriptor based: the descriptor was opened earlier
-            if event == 'open':
-                write = _open_is_write(args)
-            else:
-                write = event not in _READ_EVENTS
+            write = self._is_write(event, args)
             resolved = [resolve(p, cwd) for p in paths]
-            out.append(Event(event, paths, resolved, write, process, repr(args)[:300]))
+            out.append(Event(event, paths, resolved, write, process, repr(args)[:300], blocked,
+                             internal))
         return out
 
     def where(self, ev):
         """'inside' | 'allowed' | 'outside' for one Event."""
         if ev.process:
             return 'outside'
+        if ev.internal and not ev.write:
+            return 'allowed'
         verdict = 'inside'
         for rp in ev.resolved:
             if any(is_below(rp, r) for r in self.roots):
